@@ -42,7 +42,11 @@ CURATED = [("connect", "reply", "connect", "announce", "close", "announce"),    
            ("connect", "connect", "reply", "announce", "close", "announce"),
            ("connect", "reply", "announce", "close", "connect", "reply"),
            ("connect", "reply", "close", "connect", "reply", "announce"),
-           ("connect", "connect", "announce", "announce", "close", "reply")]
+           ("connect", "connect", "announce", "announce", "close", "reply"),
+           # a node is cut (forbidden header, contradicted checkpoint) and its host comes back - from another port, as it must
+           # (two connections per behaviour: after the refused one nothing is left to answer, the script ends there)
+           ("connect", "reply", "reply", "connect"),
+           ("connect", "reply", "connect")]
 def _scripts(n, length, extra=(), curated=True):
     return lambda rng: sorted((set(CURATED) if curated else set()) | set(fs.random_scripts(rng, n, length, extra)))
 
@@ -117,6 +121,10 @@ def sync_run(prop, tier, seed, kinds, replay_path):
             out, n, r = fu.result()
             runs.append(r)
             gen[tag] = {"behaviours": n, "scenario": consts["Scenario"]}
+            if tag == "forb":
+                gen[tag]["banned_host_returns"] = sum(1 for line in open(out) if '"banned":true' in line)
+                if gen[tag]["banned_host_returns"] == 0:
+                    raise c.Infra("vacuous forb family: no behaviour in which a banned host connects again")
             aggs.append(fc.replay(rigbin, out, seed, op="sync", nproc=c.NCPU))
     # the experimental engine (SyncExp.tla): exhaustive bounded check, then every lock-step behaviour (sampled) on the real Peer
     chainbin = fc.build()
